@@ -147,13 +147,34 @@ class ExclusiveHolder:
 
 
 class ReleaseAfterFailures:
-    """Probe controller: the holder lets go after the k-th statement of the opening handle has failed."""
+    """Probe controller: the lock is taken right before the `take_at`-th statement of the opening handle (0: it is held
+    from the start) and let go after the k-th statement of the opening handle has failed."""
 
-    def __init__(self, holder, k):
-        self.holder, self.k, self.failed = holder, k, 0
+    def __init__(self, make_holder, k, take_at=0):
+        self.make_holder, self.k, self.take_at = make_holder, k, take_at
+        self.failed = self.statements = 0
+        self.holder = None
+        self.not_obtained = False
+        if take_at == 0:
+            self.take()
+
+    def take(self):
+        import sqlite3
+        try:
+            self.holder = self.make_holder()
+        except sqlite3.OperationalError:
+            self.not_obtained = True
+
+    def release(self):
+        if self.holder is not None:
+            self.holder.release()
 
     def gate(self, label, info=None):
-        if label.startswith('err:'):
+        if label.startswith('pre:'):
+            self.statements += 1
+            if self.statements == self.take_at and self.holder is None:
+                self.take()
+        elif label.startswith('err:') and self.holder is not None:
             self.failed += 1
             if self.failed == self.k:
                 self.holder.release()
@@ -182,12 +203,12 @@ def cache_history(dc, sc, res, rng, kind, label):
              if op not in ('reset', 'create_tag_index', 'drop_tag_index')]
     made = {'n': 0}
 
-    def fresh():
+    def fresh(**kw):
         import pathlib
         how = rng.randrange(4)
         spelled = [d, d + '/', os.path.join(os.path.dirname(d), '.', os.path.basename(d)), pathlib.Path(d)][how]
         res.count('handles_opened_by_spelling_%d' % how)
-        return dc.Cache(spelled) if kind == 'cache' else dc.FanoutCache(spelled, shards=shards)
+        return dc.Cache(spelled, **kw) if kind == 'cache' else dc.FanoutCache(spelled, shards=shards, **kw)
 
     def check_settings(h, where):
         given = dict(settings)
@@ -232,26 +253,27 @@ def cache_history(dc, sc, res, rng, kind, label):
                     check_settings(h, 'a second object opened with no settings')
                     res.count('events_second_handle')
                 elif ev == 'second_locked':
-                    # a handle is opened while the database files are locked against readers too; the lock goes away
-                    # after the third statement of the opening handle has failed
-                    import sqlite3
+                    # a handle is opened while the database files are locked against readers too - from the start, or
+                    # from one of the statements of the opening sequence on; the lock goes away after the second or
+                    # third statement of the opening handle has failed
+                    wal = settings.get('sqlite_journal_mode', 'wal') == 'wal'
+                    ctrl = ReleaseAfterFailures(lambda: ExclusiveHolder(drv.shard_dirs, wal), rng.randrange(2, 4),
+                                                take_at=rng.choice([0, 0] + list(range(1, 70))))
+                    probe.set_controller(ctrl)
                     try:
-                        holder = ExclusiveHolder(drv.shard_dirs, settings.get('sqlite_journal_mode', 'wal') == 'wal')
-                    except sqlite3.OperationalError:
+                        # (a short busy timeout: SQLite's own waiting, once the handle has its real timeout, is in
+                        # wall-clock time, and nobody else runs while this thread waits)
+                        h = fresh(timeout=0.02)
+                    finally:
+                        probe.set_controller(None)
+                        ctrl.release()
+                    handles.append(h)
+                    if ctrl.not_obtained:
                         res.count('exclusive_lock_not_obtained')
-                        holder = None
-                    if holder is not None:
-                        ctrl = ReleaseAfterFailures(holder, 3)
-                        probe.set_controller(ctrl)
-                        try:
-                            h = fresh()
-                        finally:
-                            probe.set_controller(None)
-                            holder.release()
-                        handles.append(h)
-                        if ctrl.failed:
-                            res.count('events_opened_under_exclusive_lock')
-                        check_settings(h, 'an object opened while the database was locked exclusively')
+                    if ctrl.failed:
+                        res.count('events_opened_under_exclusive_lock')
+                        res.seen('event_cells', (kind, 'locked-from-statement', min(ctrl.take_at, 70) // 5))
+                    check_settings(h, 'an object opened while the database was locked exclusively')
                 elif ev == 'pickle':
                     h = pickle.loads(pickle.dumps(drv.real))
                     handles.append(h)
